@@ -563,7 +563,20 @@ func floatFromBits(x value, w int) value {
 				return f
 			}
 		}
-		panic(engineError{"Float32frombits of symbolic bits that are not the image of a symbolic float: " + x.t.String()})
+		// bits that are not (provably) the image of one symbolic float: the result is
+		// an unknown float. Modelled as a fresh opaque value per distinct bit term
+		// (finite, non-NaN); anything asserted about it can fail, and such a
+		// counterexample is confirmed or refuted by the native replay.
+		if f, ok := fbitsBack["#"+x.t.key]; ok {
+			return f
+		}
+		k := types.Float32
+		if w == 64 {
+			k = types.Float64
+		}
+		f := symFloat{k: k, t: mkVar(freshName("ffrom", ""), realSort)}
+		fbitsBack["#"+x.t.key] = f
+		return f
 	}
 	panic(engineError{fmt.Sprintf("floatFromBits %T", x)})
 }
